@@ -13,6 +13,7 @@ Static clauses decided (necessary conditions of C14):
  FLUSH   a conflict reported by the database at flush time is an error: in _save_created_ the INSERT sits in a try
          whose IntegrityError handler ends in throw(TransactionIntegrityError); the auto-generated id is registered
          with setdefault + identity check.
+ DBKEY   every declared key becomes a UNIQUE index in the generated schema (the database is what rejects a duplicate the session cannot see).
  DIRTY   SessionCache.flush clears the session's dirty state (cache.modified = False, save queue) only after the save
          loop of the round: a flush that failed leaves the session dirty, so the commit at session end retries, fails
          again and rolls back instead of committing the part that was flushed earlier.
@@ -57,9 +58,27 @@ def run(ctx):
         ctx.ob('C14-DIRTY.dirty-state-cleared-only-after-saves', fl, c.ast, ok,
                '' if ok else '`%s` runs before the objects are saved: if a save raises (key conflict found by the database) the session looks clean, '
                'later flush/commit return early and the session commits the part that was flushed before the conflict' % head(c.ast), node=c.ast)
+    # ---------------------------------------------------------------- DBKEY
+    # the last line of defence is the database: every declared key of an entity (entity._indexes_, primary key aside) becomes an index with
+    # is_unique=index.is_unique in generate_mapping -- the loop over the declared keys skips nothing but the primary key
+    gm = repo.fn('pony.orm.core', 'Database.generate_mapping'); g = cg.cfg(gm)
+    loops = [x for x in g.nodes if x.kind == 'iter' and norm(x.ast.iter).endswith('._indexes_')]
+    ctx.need(bool(loops), 'C14-DBKEY: loop over entity._indexes_ not found in generate_mapping')
+    for L in loops:
+        iv = norm(L.ast.target)
+        adds = [x for x in nodes_calling(g, lambda c: isinstance(c.func, ast.Attribute) and c.func.attr == 'add_index' and any(k.arg == 'is_unique' and norm(k.value) == iv + '.is_unique' for k in c.keywords))
+                if any(x.ast in ast.walk(b) or x.stmt is b for b in L.ast.body)]
+        pk_tests = {t.id for t in g.nodes if t.kind == 'test' and norm(t.ast) == iv + '.is_pk'}
+        first = [x for x in g.nodes if x.stmt is L.ast.body[0]][:1]
+        r = g.reach(first, avoid=adds, edge_ok=lambda x, y, lab: not (x in pk_tests and lab == 'T'))
+        ok = bool(adds) and L.id not in r
+        ctx.ob('C14-DBKEY.every-declared-key-becomes-a-unique-index', gm, adds[0].ast if adds else L.ast.iter, ok,
+               '' if ok else 'an iteration over the declared keys can finish without table.add_index(..., is_unique=%s.is_unique) for a key that is not the primary key: the database gets no '
+               'UNIQUE constraint for it, so a duplicate written from a session that has not loaded the clashing row is committed silently' % iv, node=L.ast)
 
 
 MUTANTS = [
+    dict(id='C14-k1', file='pony/orm/core.py', fn='Database.generate_mapping', old="                attrs = index.attrs\n                for attr in attrs: column_names.extend(attr.columns)", new="                attrs = index.attrs\n                if len(attrs) == 1 and attrs[0].index: continue\n                for attr in attrs: column_names.extend(attr.columns)", expect='C14-DBKEY'),
     dict(id='C14-m1', file='pony/orm/core.py', fn='SessionCache.update_simple_index',
          old='            obj2 = cache_index.setdefault(new_val, obj)\n            if obj2 is not obj: throw(CacheIndexError,', new='            obj2 = cache_index[new_val] = obj\n            if obj2 is not obj: throw(CacheIndexError,', expect='C14-GUARD'),
     dict(id='C14-m2', file='pony/orm/core.py', fn='Entity.__init__',
